@@ -274,3 +274,23 @@ for _fn, _ret, _res in (("remove_notes", "any", None), ("__sub__", "NoteContaine
                                     "list_same(self.notes, [n for n in old_notes if pitch(n) != pitch(notes)])")])],
         notes="domain: containers of 0..3 notes with arbitrary names, octaves and order; a name, a list of two names, or a Note",
         properties=["C12"], battery="nc_remove_many")
+
+# the alias, and the guitar (six strings: more than six notes at once are never playable)
+CONTRACTS[I + "notes_in_range"] = dict(
+    params={"self": "Instrument", "notes": "NoteContainer"},
+    requires="is_name(self.range[0].name) and is_name(self.range[1].name) and all([is_name(n.name) for n in notes.notes])",
+    returns="bool", modifies=[],
+    ensures=[("true-exactly-when-every-note-is-inside-the-range", "result == all([%s for n in notes.notes])" % _INR)],
+    split=[{"field_types": {"notes.notes": "[" + ",".join(["Note"] * k) + "]"}} for k in range(0, 5)], split_is_domain=True,
+    properties=["C14"], battery="instr_nc")
+CLASSES["GuitarI"] = dict(CLASSES["Instrument"], **{"class": "mingus.containers.instrument.Guitar"})
+CONTRACTS["mingus.containers.instrument.Guitar.can_play_notes"] = dict(
+    params={"self": "GuitarI", "notes": "NoteContainer"},
+    requires="is_name(self.range[0].name) and is_name(self.range[1].name) and all([is_name(n.name) for n in notes.notes])",
+    returns="bool", modifies=[],
+    ensures=[("at-most-six-notes-all-inside-the-range",
+              "result == (len(notes.notes) <= 6 and all([%s for n in notes.notes]))" % _INR)],
+    split=[{"field_types": {"notes.notes": "[" + ",".join(["Note"] * k) + "]"}} for k in (0, 1, 2, 6, 7)], split_is_domain=True,
+    inline_callees=[I + "can_play_notes"],
+    notes="domain: containers of 0, 1, 2, 6 and 7 notes (both sides of the six-string limit), any order and spelling",
+    properties=["C14"], battery="guitar_nc")
